@@ -244,7 +244,7 @@ def e2e_compare(case, outs):
             continue
         if 'r' not in a:
             bad.append({'tuple': rec['names'], 'real': rec.get('sig'), 'model': a})
-        elif sorted(a.get('sig', [])) != sorted(rec['sig']):
+        elif a.get("sig", []) != rec["sig"]:          # the parameters of a compiled function are ordered by name
             bad.append({'tuple': rec['names'], 'what': 'signature', 'real': rec['sig'], 'model': a.get('sig')})
         elif 'value' in rec:
             if 'ok' not in a['r'] or canon(a['r']['ok']) != canon(rec['value']):
